@@ -2,8 +2,8 @@
 
 Claim: PARTIAL PROOF.  Proved (Properties_C20.v): offered operations = root fields passing the filters (in order), the
 selected/total counts against the offered operations (partial + 3 refuted regions), the arguments handed to
-hypothesis-graphql target the operation's own root type and field, schema[type][field] lookups (partial + refuted:
-cache keyed by field name), the scalar table, prepare_body.  NOT proved: that the documents hypothesis-graphql generates
+hypothesis-graphql target the operation's own root type and field, schema[type][field] lookups (full since the cache is
+keyed by type.field, fe80b0ba; the field-name-only cache is kept as a refuted sentinel), the scalar table, prepare_body.  NOT proved: that the documents hypothesis-graphql generates
 are valid - foreign code, covered ONLY by the oracle stage (graphql-core parse + validate over generated SDL).
 
 Stages: proofs -> correspondence (real loaders / get_all_operations / statistic / FieldMap / graphql_cases with a
@@ -541,10 +541,19 @@ def stage_selection(chk, cases):
 # ----------------------------------------------------------------------------------------
 # stage: schema[type][field] lookups (cache keyed by field name)
 # ----------------------------------------------------------------------------------------
+def fields_of(facts: dict, root) -> list[str]:
+    return [f for name, _, fl in facts["types"] if root is not None and name == root and fl for f in fl]
+
+
 def gen_history(rng, facts: dict) -> list[list[str]]:
     keys = [k for k in (facts["q"], facts["m"]) if k] + ["Nope", "String"]
     fields = sorted({f for name, _, fl in facts["types"] if name in (facts["q"], facts["m"]) and fl for f in fl}) + ["missing"]
     h = []
+    both = sorted(set(fields_of(facts, facts["q"])) & set(fields_of(facts, facts["m"])))
+    if both and rng.random() < 0.7:
+        # the same field name under Query and Mutation, in either order
+        f = rng.choice(both)
+        h += rng.choice([[[facts["q"], f], [facts["m"], f]], [[facts["m"], f], [facts["q"], f]]])
     for _ in range(rng.randint(1, 8)):
         if h and rng.random() < 0.4:
             # the same field under another key, or a repeated lookup
@@ -597,12 +606,10 @@ def model_lres(v):
     return v
 
 
-def lookup_region(history) -> str | None:
-    for a in history:
-        for b in history:
-            if a[1] == b[1] and a[0] != b[0]:
-                return "cross_root_lookup"
-    return None
+def crosses_roots(history) -> bool:
+    """Does the history use one field name under two different type keys?  (the histories the field-name-only cache
+    of before fe80b0ba got wrong; no longer a region - the property holds for them and they are generated on purpose)"""
+    return any(a[1] == b[1] and a[0] != b[0] for a in history for b in history)
 
 
 def stage_lookups(chk, cases):
@@ -612,38 +619,51 @@ def stage_lookups(chk, cases):
         facts = slim(raw_facts(schema.raw_schema))
         h = clist([ctuple(cstr(k), cstr(f)) for k, f in case["history"]], "(str * str)")
         exprs.append(
-            f"match build_client {c_raw(facts)} with BOk c => Some (run_lookups c [] {h}, map (fun p => lookup_spec c (fst p) (snd p)) {h}, hist_consistent {h}) | BRaises => None end"
+            f"match build_client {c_raw(facts)} with BOk c => Some (run_lookups c [] {h}, map (fun p => lookup_spec c (fst p) (snd p)) {h}, "
+            f"run_lookups_fk c [] {h}, [root_names_dotless c; hist_consistent {h}]) | BRaises => None end"
         )
         metas.append((case, schema))
     model = core.coq_eval(IMPORTS, exprs)
-    hits = 0
+    hits = sentinel_differs = 0
     for (case, schema), m in zip(metas, model):
         m = core.popt(m)
         got = impl_lookups(schema, case["history"])
         want = expected_lookups(case["sdl"], case["history"])
         chk.seen({"lookups": case}, len({tuple(x) for x in case["history"]}) > 1)
-        chk.count("lookups:" + ("cross" if lookup_region(case["history"]) else "consistent"))
+        chk.count("lookups:" + ("same_field_under_both_roots" if crosses_roots(case["history"]) else "consistent"))
         if m is None:
             chk.disagree("build_client raises on the introspection result of a valid SDL schema", case, "ok", None)
             continue
-        m_run, m_spec, m_cons = [model_lres(x) for x in m[0]], [model_lres(x) for x in m[1]], m[2]
+        m_run, m_spec, m_fk = [model_lres(x) for x in m[0]], [model_lres(x) for x in m[1]], [model_lres(x) for x in m[2]]
+        m_dotless, m_cons = m[3]
+        if m_fk != m_spec:
+            sentinel_differs += 1
         if got != m_run:
-            chk.disagree("schema[type][field] history vs Model_C20.run_lookups", case, got, m_run)
-            continue
+            what = "schema[type][field] history vs Model_C20.run_lookups"
+            if got == m_fk:
+                what += " (the implementation behaves like the SENTINEL run_lookups_fk: cache keyed by the field name alone)"
+            chk.disagree(what, case, got, m_run)
         if want != m_spec:
             chk.disagree("graphql-core reading of schema[type][field] vs Model_C20.lookup_spec", case, want, m_spec)
-            continue
-        if m_cons != (lookup_region(case["history"]) is None):
-            chk.disagree("hist_consistent vs harness region", case, lookup_region(case["history"]), m_cons)
+        if not m_dotless:
+            chk.disagree("root_names_dotless is false on a schema graphql-core accepted", case, None, m_dotless)
+        if m_cons != (not crosses_roots(case["history"])):
+            chk.disagree("hist_consistent vs harness", case, crosses_roots(case["history"]), m_cons)
+        if m_dotless and m_run != m_spec:
+            chk.disagree("C20_lookup_returns_requested re-checked by evaluation", case, m_run, m_spec)
+        # the property on the implementation (no region: C20-F1 is fixed)
         if got != want:
             hits += 1
             bad = next(i for i, (a, b) in enumerate(zip(got, want)) if a != b)
             chk.fail(
-                f"schema[{case['history'][bad][0]!r}][{case['history'][bad][1]!r}] returned {got[bad]} instead of {want[bad]}",
+                f"after {case['history'][:bad]}, schema[{case['history'][bad][0]!r}][{case['history'][bad][1]!r}] returned {got[bad]} instead of {want[bad]}",
                 case,
-                region=lookup_region(case["history"]),
             )
-    chk.stages["lookups"] = {"histories": len(metas), "wrong_operation_returned": hits}
+    chk.stages["lookups"] = {
+        "histories": len(metas),
+        "wrong_operation_returned": hits,
+        "histories_the_field_keyed_sentinel_gets_wrong": sentinel_differs,
+    }
 
 
 # ----------------------------------------------------------------------------------------
@@ -899,8 +919,7 @@ def stage_strategy_call(chk, cases):
         # the property on the implementation: the generator is restricted to the operation's own root field
         d_root, d_field = label.split(".", 1)
         if not (got["accepts"] and got["target"] == [d_root, [d_field]]):
-            region = "cross_root_lookup" if case.get("via_lookup") else None
-            chk.fail(f"the strategy for {label} is restricted to {got['target']}", canon, region=region)
+            chk.fail(f"the strategy for {label} is restricted to {got['target']}", canon)
         else:
             chk.sample({"operation": label, "factory_call": {k: got[k] for k in ("factory", "fields", "allow_x00", "allow_null", "codec")}, "custom_scalars": [k for k, _ in got["scalars"]]})
     rm = core.coq_eval(IMPORTS, reg_exprs)
